@@ -313,7 +313,9 @@ def generic_replay(SCEN, cfg, label, env):
         if label.startswith("exception:"):
             return dict(reproduced=type(e).__name__ == label.split(":", 1)[1],
                         detail="%s: %s" % (type(e).__name__, str(e)[:200]))
-        return dict(reproduced=None, detail="replay raised %s: %s" % (type(e).__name__, str(e)[:200]))
+        from .common import _raised_in_repo
+        return dict(reproduced=(True if _raised_in_repo(e) else None),
+                    detail="replay raised %s: %s" % (type(e).__name__, str(e)[:200]))
     if label.startswith("exception:"):
         return dict(reproduced=False, detail="no exception on the real library")
     r = chk.res.get(label)
